@@ -1,6 +1,6 @@
 #!/bin/sh
 # Runs the repository's pinned suite (guard off) and prints pass/fail counts.
-cd "${VERIF_REPO:-/repo}" && GOFLAGS=-mod=mod GOPROXY=off GOSUMDB=off go test -mod=mod -json -vet=off -count=1 -timeout 25m ./... 2>/dev/null | python3 -c "
+cd "${VERIF_REPO:-/repo}" && DBUS_SESSION_BUS_ADDRESS=unix:path=/nonexistent/verif-no-session-bus GOFLAGS=-mod=mod GOPROXY=off GOSUMDB=off go test -mod=mod -json -vet=off -count=1 -timeout 25m ./... 2>/dev/null | python3 -c "
 import sys,json
 p=f=0; fails=[]
 for l in sys.stdin:
